@@ -17,9 +17,11 @@ class C06(Prop):
     id = "C06"
     title = "Uplink NAS protection is correct over any message history"
     lean_module = "Stgutg.Props.C06"
-    extra_modules = ["Stgutg.Proofs.GenTieCount", "Stgutg.Gen.PureSelftest"]
-    gen = ["tables", "pure-count", "pure-selftest"]
-    theorems = [
+    extra_modules = ["Stgutg.Props.Glue.tglib_NASEncode", "Stgutg.Props.Glue.tglib_EncodeNasPduWithSecurity", "Stgutg.Proofs.GenTieCount", "Stgutg.Gen.PureSelftest"]
+    gen = ["tables", "pure-count", "pure-selftest", "procs"]
+    theorems = ["Stgutg.Props.GluePinned." + t for t in [
+        # the glue functions this property depends on are still the text the models were written from (gen procs)
+        "tglib_NASEncode", "tglib_EncodeNasPduWithSecurity"]] + [
         # tie by translation: the eight methods of security.Count regenerated from counter.go ARE the hand model
         "Stgutg.Proofs.GenTie.Count.Count_methods_eq",
         "Stgutg.Props.C06.counter_ops",
